@@ -1,6 +1,7 @@
 package actionlint
 
 import (
+	"fmt"
 	"strconv"
 	"strings"
 	"time"
@@ -53,10 +54,20 @@ func (rule *RuleEvents) checkEvent(event Event) {
 	}
 }
 
+func parseCron(spec string) (sched cron.Schedule, err error) {
+	// The cron parser panics on some inputs (e.g. "TZ=UTC" without any field). Report them as errors.
+	defer func() {
+		if r := recover(); r != nil {
+			err = fmt.Errorf("could not parse the spec: %v", r)
+		}
+	}()
+	p := cron.NewParser(cron.Minute | cron.Hour | cron.Dom | cron.Month | cron.Dow)
+	return p.Parse(spec)
+}
+
 // https://docs.github.com/en/actions/learn-github-actions/workflow-syntax-for-github-actions#onschedule
 func (rule *RuleEvents) checkCron(spec *String) {
-	p := cron.NewParser(cron.Minute | cron.Hour | cron.Dom | cron.Month | cron.Dow)
-	sched, err := p.Parse(spec.Value)
+	sched, err := parseCron(spec.Value)
 	if err != nil {
 		rule.Errorf(spec.Pos, "invalid CRON format %q in schedule event: %s", spec.Value, err.Error())
 		return
